@@ -204,8 +204,14 @@ mod ir_builder {
                     }
                 }
 
+            // A block label may start with an instruction keyword (labels are derived from
+            // function names, e.g. `call_foo_3_block1():`), so make sure we are not looking at the
+            // header of the next block before trying to parse an instruction.
+            rule block_header()
+                = id() "(" _ (block_arg() ** comma()) ")" _ ":"
+
             rule instr_decl() -> IrAstInstruction
-                = value_name:value_assign()? op:operation() metadata:comma_metadata_idx()? {
+                = !block_header() value_name:value_assign()? op:operation() metadata:comma_metadata_idx()? {
                     IrAstInstruction {
                         value_name,
                         op,
@@ -246,6 +252,7 @@ mod ir_builder {
             rule operation() -> IrAstOperation
                 = op_asm()
                 / op_wide_unary()
+                / op_wide_modular_operation()
                 / op_wide_binary()
                 / op_wide_cmp()
                 / op_retd()
